@@ -474,8 +474,10 @@ def fresh_process(ctx, res, cases):
         p = subprocess.run([sys.executable, "-c", script], input=data, capture_output=True, text=True,
                            env=env, timeout=3000)
         if p.returncode != 0:
-            res.notes.append("fresh-process run failed: " + p.stderr[-300:])
-            return
+            # the helper process itself failed (solver exceptions are caught inside run_algo): nothing was learnt
+            from ..common import Infra
+
+            raise Infra("fresh-process run failed: " + p.stderr[-600:])
         results.append(p.stdout.splitlines())
     for (c, a), l1, l2 in zip(items, *results):
         res.case({"case": c, "algo": a, "fresh": True}, solvers.nontrivial(c))
